@@ -104,7 +104,7 @@ def gen_run(ctx, name, mdl, simulate=0, depth=0, workers=4, timeout=900):
     extra = []
     if simulate:
         extra = ["-simulate", "num=%d" % simulate, "-depth", str(depth + 1), "-seed", str(ctx.seed)]
-        workers = 1
+    workers = 1   # one worker: the BFS tree (and so the printed paths) is the same on every run
     r = vf.mc_run(ctx, "gen-" + name, "DispatchGen", mdl["consts"], plain, spec="GenSpec", view=None if simulate else "View",
                   timeout=timeout, extra=extra, workers=workers, heap="6g")
     return r, simulate
@@ -630,6 +630,9 @@ def run(ctx):
             script_runs.append(r)
     script_runs += driver_runs(rng, ndrv, backends_s)
     ctx.count("script_runs", len(script_runs))
+    ctx.sample({"kind": "table row (TLC) and its run", "row": rows[len(rows) // 3], "run": table_runs(rows[len(rows) // 3:len(rows) // 3 + 1], "memory")[0]})
+    if per_gen["multi"]:
+        ctx.sample({"kind": "TLC-generated schedule input (multi-target)", "run": per_gen["multi"][len(per_gen["multi"]) // 2]})
     distinct += len(set(json.dumps([r["targets"], r["msgs"], r["scripts"], r["requeue"], r["order"], r["conc"], r.get("inject", "")],
                                    sort_keys=True) for r in script_runs))
 
@@ -656,6 +659,7 @@ def run(ctx):
     require(len(rejected) >= 5, "hardly any invalid retry directive was refused by config.Compile")
     require(len(accepted) >= ncfg, "only %d retry configurations were accepted (wanted %d)" % (len(accepted), ncfg))
     accepted = accepted[:ncfg]
+    ctx.sample({"kind": "retry directives", "accepted": accepted[:4], "rejected_by_compile": rejected[:4]})
     dly = delay_runs(rng, accepted + rejected[:5], 200, backends_s)   # the harness compiles again; rejected ones produce no trace
     distinct += len(set(accepted))
 
@@ -677,7 +681,7 @@ def run(ctx):
             ctx.count("max_blocked_deliveries", info["max_gated"])
         ctx.cov["traces_validated_against_impl"] += info["traces"]
         all_files += files
-        if tag in ("script", "tabmem") and files:
+        if tag == "script" and files:
             ev = vf.load_trace(files[0])[:14] if os.path.getsize(files[0]) < 50 * 1024 * 1024 else []
             ctx.sample({"kind": "trace prefix (%s)" % tag, "events": [{k: v for k, v in e.items() if k != "errtext"} for e in ev]})
         phase(ctx, "run-" + tag)
